@@ -14,6 +14,7 @@ NOT_APPLICABLE = {
     'C10': 'quantifies over crash points between file-system mutations and fault sequences of whole configure/regenerate runs; a function contract relates one call\'s pre-state to its post-state and has no notion of "killed here" (DESIGN.md section 6)',
     'C13': 'two-run hyperproperty of the whole pipeline under hash randomisation; set iteration order is not an input of any function under contract (DESIGN.md section 6)',
     'C16': 'the oracle is the behaviour of the external gcc/clang binaries; a contract on the flag tables can only restate the tables (DESIGN.md section 6)',
+    'C06': 'relational property across three emitters per builtin (make / ninja / compdb) over ~6 kLOC of duck-typed builtins: a product-program obligation per builtin needs every builtin\'s rule object under the opaque-object mode; the emitter kernels that are under contract (ninja command_build, Makefile.rule / NinjaFile.build, the writers) are claimed under C03/C01/C02 instead; no relational contract was built (DESIGN.md 8.3)',
     'C18': 'universal statement over all builtins plus the behaviour of the external archive tool; no per-function contract carries it (DESIGN.md section 6)',
 }
 
@@ -191,4 +192,38 @@ TABLE['C19'] = {
     'not_covered': ['builtins/path.py relpath/relname/buildpath', 'core.submodule/export', 'values seen by later regenerations (see C09)'],
     'level_text': 'Partial claim, see explanation.',
     'level_note': 'Two small proofs plus bounded runs; most of the property (submodule-relative paths, export flow) is not covered.',
+}
+
+TABLE['C08'] = {
+    'modules': ['contracts.regen'],
+    'level': 'other',
+    'explanation': 'history property (edits interleaved with regenerations): outside one-call contracts. What is decided: (proof) BasePath.to_json encodes the directory flag as a trailing separator (the only way from_json can recover it); (bounded, real code) to_json/from_json of PathGlob, NameGlob, FileFilter, FindCache (kinds preserved), RegenerateFiles and the cache-file version gate are identities / refusals as required; find() on real trees equals the reference semantics (so the lazily re-checked result is the fresh result). The regenerate rule\'s inputs/outputs, directory-mtime depfile and the skip decision of find_check_cache over edit histories are not covered.',
+    'assumptions': ['json.dumps/loads round-trips lists, dicts, strings, booleans and None'],
+    'trusted_base': ['PyVC (pyvc/*.py)', 'z3 5.1.0'],
+    'not_covered': ['find_check_cache skip decision (mtime comparison, kind-insensitive list equality)', 'regenerate rule inputs/outputs', 'write_depfile / find_dirs', 'convergence over edit histories'],
+    'level_text': 'Partial claim, see explanation.',
+    'level_note': 'One proof (to_json shape) + bounded runs; the history quantifier of the property is not reachable by this family.',
+}
+
+TABLE['C14'] = {
+    'modules': ['contracts.linking'],
+    'level': 'other',
+    'explanation': 'linking and running are external. What is decided: (proof) option_list.append appends a string always and an option object exactly when it matches no element already present (first occurrence kept); (bounded, real classes) for every DAG of up to four libraries with up to two forwarded libraries each, the final lib option list contains every reachable library and puts each static library before an occurrence of everything it forwards -- except where a library is reachable along two paths, which is a recorded known finding (confirmed with the real toolchain); local_rpath is $ORIGIN-relative and independent of where the build directory is.',
+    'assumptions': ['static-library link order semantics of ld: a library must precede the libraries that resolve its undefined symbols'],
+    'trusted_base': ['PyVC (pyvc/*.py)', 'z3 5.1.0'],
+    'not_covered': ['CcLinker._link_lib/_lib_dir/flags/lib_flags, soname, runtime/linktime dependency bookkeeping', 'shared/dual-use library modes', 'real linking and running, moving the build tree'],
+    'level_text': 'Partial claim, see explanation.',
+    'level_note': 'One small proof + bounded runs on the real kernel classes; one known finding (link order with a shared forwarded dependency).',
+}
+
+TABLE['C15'] = {
+    'modules': ['contracts.install'],
+    'level': 'exploration',
+    'explanation': 'no function of the install layer was brought under a deductive contract (file_types.clone machinery, getattr-based tables, external doppel/patchelf tools); the check is a bounded runtime contract of installify / InstallOutputs / _uninstall_files on the real classes',
+    'assumptions': ['doppel and patchelf do what their command lines say'],
+    'trusted_base': [],
+    'not_covered': ['_install_files command lines (doppel onto/into), header directories with include patterns, post-install rpath rewrite', 'the copying tools and the resulting tree', 'DESTDIR handling by the backends (quoting: see C01/C02)'],
+    'level_text': 'Bounded exploration only (labelled): for five file kinds, six names and three directory arguments the real installify/InstallOutputs map each file to DESTDIR + the directory of its kind, add run-time dependencies, refuse external files and conflicting destinations, and uninstall names exactly the installed paths. Nothing is proved for this property.',
+    'level_note': 'bounded stand-in only; contract-based proof did not reach this layer (stated in DESIGN.md 8.3)',
+    'technique': 'bounded runtime contracts on the real functions (stand-in; no deductive obligations)',
 }
